@@ -14,7 +14,7 @@ git checkout -q -- go.sum go.mod 2>/dev/null
 if git apply -R --check seed.patch 2>/dev/null; then :; else git apply seed.patch || { echo "cannot apply seed.patch"; exit 3; }; fi
 suite=FAIL; go test -count=1 -skip TestSeedDemo ./... >/dev/null 2>&1 && suite=PASS
 # allocation-counting demonstrations (C18) run without -race: the race detector's instrumentation allocates
-RACE=-race; case "$2" in C18-*) RACE=;; esac
+RACE=-race; case "$name" in C18-*) RACE=;; esac
 demo_with=PASS; go test -count=1 $RACE -run TestSeedDemo ./... >/tmp/seed_demo_with.log 2>&1 || demo_with=FAIL
 if [ $demo_with = PASS ]; then for i in 1 2 3 4 5; do go test -count=1 $RACE -run TestSeedDemo ./... >/tmp/seed_demo_with.log 2>&1 || { demo_with=FAIL; break; }; done; fi
 git apply -R seed.patch
